@@ -15,6 +15,8 @@ def run(ck):
     w = ck.world()
     r4_identity(ck, w)
     r5_point_domains(ck, w)
+    r6_len_minus_one(ck, w)
+    r7_chopped_single_point(ck, w)
     c10.eval_ops(ck, w, 'C14', 'C14.N1')
     ck.explanation = (
         'Static rules for the multi-opening argument: (R1) multi_open (write→read) = multi_prepare = in-circuit multi_prepare as transcript schedules '
@@ -110,3 +112,62 @@ def r5_point_domains(ck, w):
                 ck.record('C14.R5', f'{f["_nid"]}|{expr_str(x)[:60]}', not mixes, 'inner index is a position inside the set',
                           f'{f["_nid"]}: `{expr_str(x)[:80]}` indexes a point set (positions) with a global point index', hirq.fn_loc(f, x))
     ck.floor('C14.R5', 'point-set element accesses', n, 1)
+
+
+def r6_len_minus_one(ck, w):
+    """no unguarded `len() - 1` on the multi-opening path"""
+    from ..core import walk, peel, expr_str
+    ck.rule('C14.R6', 'in every function reachable from multi_open / multi_prepare, `x.len() - 1` (usize) is guarded by a length / emptiness test of x in the same '
+                      'function, or computed with saturating / checked arithmetic: a polynomial opened at more points than it has coefficients leaves an EMPTY '
+                      'quotient dividend, and `kate_division` computed `a.len() - 1` on it (overflow panic in the prover for a valid query set)')
+    cg = w.callgraph()
+    roots = [norm('<midnight_proofs::poly::kzg::KZGCommitmentScheme as midnight_proofs::poly::commitment::PolynomialCommitmentScheme>::' + m) for m in ('multi_open', 'multi_prepare')]
+    reach_ = cg.reachable(roots)
+    owners = {x.split('::{closure')[0] for x in reach_}
+    n_fn, n_sites = 0, 0
+    for f in w.all_fns(['proofs']):
+        if f['_nid'] not in owners or '::tests' in f['_nid']:
+            continue
+        n_fn += 1
+        tested = set()
+        for n in walk(f['body']):
+            if n.get('k') == 'bin' and n.get('op') in ('<', '<=', '>', '>=', '==', '!='):
+                for m in hirq.calls(n):
+                    if m.get('m') in ('len', 'is_empty'):
+                        tested.add(expr_str(peel(m['recv']))[:40])
+            if n.get('k') == 'mcall' and n.get('m') == 'is_empty':
+                tested.add(expr_str(peel(n['recv']))[:40])
+        for n in walk(f['body']):
+            if n.get('k') == 'bin' and n.get('op') == '-' and peel(n['b']).get('v') == 'i:1':
+                a = peel(n['a'])
+                if a.get('k') == 'mcall' and a.get('m') == 'len':
+                    n_sites += 1
+                    r = expr_str(peel(a['recv']))[:40]
+                    ck.record('C14.R6', f'{f["_nid"]}|{expr_str(n)[:40]}', r in tested, f'`{r}` is length-tested in the same function',
+                              f'{f["_nid"]}: `{expr_str(n)[:50]}` underflows when `{r}` is empty and nothing in the function tests its length', hirq.fn_loc(f, n))
+    ck.floor('C14.R6', 'functions on the multi-opening path', n_fn, 50)
+    ck.count('C14.R6 len-1 sites', n_sites)
+
+
+def r7_chopped_single_point(ck, w):
+    """the single-point requirement of chopped commitments is enforced in release builds"""
+    from ..core import walk, peel
+    from ..engines import taint
+    ck.rule('C14.R7', 'multi_prepare recombines the pieces of a chopped commitment with powers of ONE evaluation point; that the commitment is queried at a single '
+                      'point must be enforced by an escaping conditional that exists in release builds (not a debug_assert!): otherwise the first point of the set '
+                      'is used for every query of that commitment and a false evaluation claim at the other point verifies')
+    f = w.fn('<midnight_proofs::poly::kzg::KZGCommitmentScheme as midnight_proofs::poly::commitment::PolynomialCommitmentScheme>::multi_prepare', required=False)
+    if f is None:
+        ck.bad('C14.R7', 'multi_prepare:anchor', 'multi_prepare not found (anchor)')
+        return
+    ok = False
+    for n in walk(f['body']):
+        if n.get('k') != 'if' or not any(m.get('m') == 'is_chopped' for m in hirq.calls(n['c'])):
+            continue
+        for g in walk(n['a']):
+            if g.get('k') == 'if' and taint.diverges(g['a']) and not any('debug_assert' in m_ for m_ in (g.get('x') or [])):
+                if any(y.get('k') == 'field' and y.get('n') == 'point_indices' for y in walk(g['c'])) and any(m.get('m') == 'len' for m in hirq.calls(g['c'])):
+                    ok = True
+    ck.record('C14.R7', 'multi_prepare:chopped-single-point', ok, 'an escaping conditional (release-visible) checks point_indices.len()',
+              'multi_prepare guards the single-point requirement of chopped commitments with a debug_assert! only: in release builds a chopped commitment queried at '
+              'two points is evaluated at the first one for both queries', hirq.fn_loc(f))
